@@ -36,6 +36,10 @@ type msgCase struct {
 	HeaderType int     `json:"header_type"`
 	Pkgs       []pdesc `json:"pkgs"`
 	SendLast   bool    `json:"send_last"` // last package via SendPackage instead of QueuePackage + SendRemainingPackets
+	// RxAfter k > 0: after k packages of the message have been queued, the tail of the previous
+	// exchange arrives from the server (a final DONE with EOM, or an empty EOM packet) and is
+	// consumed; what has been queued so far must go out with the rest of the message all the same
+	RxAfter int `json:"response_tail_arrives_after_packages,omitempty"`
 }
 
 type c01Case struct {
@@ -195,6 +199,19 @@ func runCase(c c01Case) (f *vh.Failure) {
 			if err != nil {
 				return vh.Failf("C01/send-error", "message %d package %d: %v", mi, i, err)
 			}
+			if m.RxAfter > 0 && i+1 == m.RxAfter && i+1 < len(pkgs) {
+				body := []byte{0xfd, 0, 0, 0, 0, 0, 0, 0, 0} // DONE(FINAL)
+				if mi%2 == 1 {
+					body = nil // message of the previous exchange ended exactly on a packet boundary
+				}
+				ch.WritePacket(&tds.Packet{Header: tds.PacketHeader{MsgType: tds.TDS_BUF_RESPONSE, Status: tds.TDS_BUFSTAT_EOM, Length: uint16(8 + len(body))}, Data: body})
+				for {
+					if _, err := ch.NextPackage(ctx, false); err != nil {
+						break
+					}
+				}
+				vh.Label("response-tail-arrives-mid-message")
+			}
 			if tl, ok := p.(*tds.TokenlessPackage); ok {
 				// the package has been queued: what the caller does with its buffer afterwards
 				// must not change what is sent
@@ -320,6 +337,9 @@ func genMsg(rt *rapid.T) msgCase {
 		m.HeaderType = rapid.IntRange(1, 23).Draw(rt, "htype")
 	} else {
 		m.HeaderType = rapid.SampledFrom([]int{15, 2, 1, 3, 13}).Draw(rt, "htypec")
+	}
+	if rapid.IntRange(0, 4).Draw(rt, "rxmid") == 0 {
+		m.RxAfter = rapid.IntRange(1, 3).Draw(rt, "rxafter")
 	}
 	n := rapid.IntRange(0, 4).Draw(rt, "nsmall")
 	for i := 0; i < n; i++ {
